@@ -65,4 +65,5 @@ def cumsum_noskipna_timedelta(sub, case, v):
 def nullable_int_float(sub, case, v):
     """Integer value columns that contain nulls (pandas nullable, Arrow-backed pandas, polars) are converted to float64:
     selections lose the integer dtype and values above 2^53 are rounded (silently)."""
-    return sub == "int_with_nulls" and v.kind.startswith(("intnull:dtype", "intnull:value")) and any(x is None for x in case["vals"][0]["vals"])
+    # only the dtype change and the pure float64 rounding of a value; wrong values, missing labels etc. are NOT covered
+    return sub == "int_with_nulls" and v.kind.startswith(("intnull:dtype", "intnull:inexact")) and any(x is None for x in case["vals"][0]["vals"])
